@@ -21,9 +21,12 @@ RULE = ("1-6 materials drawn (with repeats) from 1-4 generated compounds (flat d
         "(all-zero vectors included, integer and float arrays), density = 0 | (0, 25], wavelength scalar / length-1 / "
         "length-n list or array in [0.05, 50] A. oracle = neutron_sld({atom: sum_i w_i n_ik}, density, wavelength): "
         "three outputs at rel 1e-10 + 2e-13 x operand scale; scalar output for scalar wavelength, wavelength's shape "
-        "otherwise; zero total weight or zero density -> all three equal 0. non-trivial = (>= 2 materials with a zero "
+        "otherwise; zero total weight or zero density -> all three equal 0. Then 1-3 further calls of the SAME "
+        "calculator with the SAME weights ndarray modified in place (set an element, scale, zero one/all) or with only "
+        "the density changed, each judged against the direct calculation for the current values; the library must not "
+        "modify the weights/wavelength arguments. non-trivial = (>= 2 materials with a zero "
         "weight among them) or (sigma_s - sigma_c clips at 0 at some wavelength) or (energy dependent atom with vector "
-        "wavelength of length >= 2); distinct by (materials, weights, density, wavelength).")
+        "wavelength of length >= 2) or an in-place weight change in the sequence; distinct by (materials, weights, density, wavelength, steps).")
 ASSUMPTIONS = [
     "weights are passed as a numpy vector (docstring: 'takes a vector of weights'), materials as Formula objects",
     "the direct calculation itself is tied to the documented equations by C03",
@@ -31,6 +34,90 @@ ASSUMPTIONS = [
 ]
 
 SLD = OUTPUTS[:3]
+
+
+def _wavelength_arg(np, wv):
+    lams = wv["lams"]
+    if wv["form"] == "scalar":
+        return lams[0], (), lams[:1]
+    if wv["form"] == "list":
+        return list(lams), (len(lams),), lams
+    return np.array(lams, dtype=float), (len(lams),), lams
+
+
+def apply_step(np, weights, rho, step):
+    """One step of a calling sequence: modify the caller's weights array IN PLACE (or change
+    only the density).  Returns the density of the next call."""
+    op = step[0]
+    integer = weights.dtype.kind in "iu"
+    if op == "set":
+        k, val = step[1] % len(weights), step[2]
+        weights[k] = int(-(-val // 1)) if integer else val
+    elif op == "scale":
+        f = step[1]
+        if integer:
+            weights *= max(2, int(round(f)))
+        else:
+            weights *= f
+    elif op == "zero":
+        weights[:] = 0
+    elif op == "zero-one":
+        weights[step[1] % len(weights)] = 0
+    elif op == "density":
+        return step[1]
+    elif op == "same":
+        pass
+    else:
+        raise ValueError(op)
+    return rho
+
+
+def judge(call, mats, comps, got, weights, rho, arg, shape, lams, case):
+    """One calculator result against the direct calculation for the CURRENT weights and density.
+    Returns (clips, zero)."""
+    E = ng.env()
+    np, pt, R = E["np"], E["pt"], E["ref"]
+    w = [float(x) for x in weights]
+    if not (isinstance(got, tuple) and len(got) == 3):
+        raise Violation("c17:result-form", "%s: calculator returned %r" % (call, got), case)
+    # the weighted sum, atom by atom
+    total, objs = {}, {}
+    for m, cmp_, wi in zip(mats, comps, w):
+        for atom, n in m.atoms.items():
+            objs[atom] = objs.get(atom, 0.0) + wi * n
+        for k, n in cmp_.items():
+            total[k] = total.get(k, 0.0) + wi * n
+    mass = sum(n * R.atom(k)[0] for k, n in total.items())
+    seq = "" if call == "call 1" else ":sequence"
+    if mass == 0 or rho == 0:
+        for o, g in zip(SLD, got):
+            if not bool(np.all(np.asarray(g) == 0)):
+                raise Violation("c17:zero:%s%s" % (o, seq), "%s: zero %s but %s = %r (weights %r, density %r)"
+                                % (call, "density" if rho == 0 else "total weight", o, g, w, rho), case)
+            if np.shape(g) not in ((), shape):
+                raise Violation("c17:zero:shape", "%s: %s has shape %r" % (call, o, np.shape(g)), case)
+        return False, True
+    edep = ng.has_edep(dict((k, n) for k, n in total.items() if n))
+    clips = False
+    floors = []
+    for lam in lams:
+        ref, f = R.scattering(total, rho, lam, E["axis"])
+        floors.append(f)
+        clips = clips or ref["sigma_i"] <= f["sigma_i"]
+    direct = pt.neutron_sld(objs, density=rho, wavelength=arg)
+    for o, g, d in zip(SLD, got, direct):
+        ng.check_shape("c17", o, g, shape, case)
+        gg = np.asarray(g, dtype=float).reshape(-1)
+        dd = np.asarray(d, dtype=float).reshape(-1)
+        for i in range(len(lams)):
+            x, y = float(gg[i]), float(dd[i])
+            if not abs(x - y) <= 1e-10 * max(abs(x), abs(y)) + 2.0 * floors[i][o]:
+                raise Violation("c17:%s:%s%s" % (o, "edep" if edep else "ordinary", seq),
+                                "%s: %s: calculator %r, direct neutron_sld %r at %r A (current weights %r, density %r)"
+                                % (call, o, x, y, lams[i], w, rho), case)
+            if o != "sld_re" and not x >= 0:
+                raise Violation("c17:negative:%s" % o, "%s: %s = %r" % (call, o, x), case)
+    return clips, False
 
 
 def check_composite(ctx, v):
@@ -46,76 +133,50 @@ def check_composite(ctx, v):
         w = [0 for _ in w]
     rho = v["density"]
     wv = v["wl"]
-    lams = wv["lams"]
-    if wv["form"] == "scalar":
-        arg, shape, lams = lams[0], (), lams[:1]
-    elif wv["form"] == "list":
-        arg, shape = list(lams), (len(lams),)
-    else:
-        arg, shape = np.array(lams, dtype=float), (len(lams),)
+    arg, shape, lams = _wavelength_arg(np, wv)
     integral = all(float(x) == int(x) for x in w)
     weights = np.array([int(x) for x in w]) if (integral and v["intw"]) else np.array(w, dtype=float)
+    steps = v.get("steps", [])
 
-    # the weighted sum, atom by atom
-    total, objs = {}, {}
-    for m, cmp_, wi in zip(mats, comps, w):
-        for atom, n in m.atoms.items():
-            objs[atom] = objs.get(atom, 0.0) + float(wi) * n
+    total = {}
+    for cmp_, wi in zip(comps, w):
         for k, n in cmp_.items():
             total[k] = total.get(k, 0.0) + float(wi) * n
-    mass = sum(n * R.atom(k)[0] for k, n in total.items())
-    zero = (mass == 0) or rho == 0
     edep = ng.has_edep(dict((k, n) for k, n in total.items() if n))
-    clips = False
-    floors = []
-    if not zero:
-        nz = dict((k, n) for k, n in total.items())
-        for lam in lams:
-            ref, f = R.scattering(nz, rho, lam, E["axis"])
-            floors.append(f)
-            clips = clips or ref["sigma_i"] <= f["sigma_i"]
-    nt = (len(mats) >= 2 and any(x == 0 for x in w)) or clips or (edep and len(lams) >= 2 and shape != ())
+    case = dict(v, kind="composite")
+
+    with unchanged("c17", case, wavelength=arg, weights=weights):
+        calc = nsf.neutron_composite_sld(mats, wavelength=arg)
+        got = calc(weights, density=rho)
+    clips, zero = judge("call 1", mats, comps, got, weights, rho, arg, shape, lams, case)
+
+    nt = (len(mats) >= 2 and any(x == 0 for x in w)) or clips or (edep and len(lams) >= 2 and shape != ()) \
+        or any(s[0] in ("set", "scale", "zero", "zero-one") for s in steps)
     cls = ng.comp_classes(specs, total) + ["materials:%d" % len(mats), "wl:" + wv["form"] + (":%d" % min(len(lams), 3)),
                                            "zero:" + ("all-weights" if not any(w) else "density" if rho == 0 else "no"),
                                            "weights:" + ("some-zero" if any(x == 0 for x in w) and any(w) else "other"),
                                            "weights-dtype:" + str(weights.dtype), "repeated-material:" + str(len(set(i % len(built) for i in idx)) < len(idx)),
-                                           "inc-clips:" + str(bool(clips))]
-    desc = {"materials": [str(m) for m in mats], "weights": w, "density": rho, "wavelength": wv}
+                                           "inc-clips:" + str(bool(clips)), "calls:%d" % (1 + len(steps))]
+    cls += sorted(set("step:" + s[0] for s in steps))
+    desc = {"materials": [str(m) for m in mats], "weights": w, "density": rho, "wavelength": wv, "then": steps}
     ctx.case((str(desc),), nontrivial=nt, sample=desc, cls=cls)
-    case = dict(v, kind="composite")
 
-    with unchanged("c17", None, wavelength=arg, weights=weights):
-        calc = nsf.neutron_composite_sld(mats, wavelength=arg)
-        got = calc(weights, density=rho)
-    if not (isinstance(got, tuple) and len(got) == 3):
-        raise Violation("c17:result-form", "calculator returned %r" % (got,), case)
-    if zero:
-        for o, g in zip(SLD, got):
-            if not bool(np.all(np.asarray(g) == 0)):
-                raise Violation("c17:zero:%s" % o, "zero %s but %s = %r" % ("density" if rho == 0 else "total weight", o, g), case)
-            if np.shape(g) not in ((), shape):
-                raise Violation("c17:zero:shape", "%s has shape %r" % (o, np.shape(g)), case)
-        return
-    direct = pt.neutron_sld(objs, density=rho, wavelength=arg)
-    for o, g, d in zip(SLD, got, direct):
-        ng.check_shape("c17", o, g, shape, case)
-        gg = np.asarray(g, dtype=float).reshape(-1)
-        dd = np.asarray(d, dtype=float).reshape(-1)
-        for i in range(len(lams)):
-            x, y = float(gg[i]), float(dd[i])
-            if not abs(x - y) <= 1e-10 * max(abs(x), abs(y)) + 2.0 * floors[i][o]:
-                raise Violation("c17:%s:%s" % (o, "edep" if edep else "ordinary"),
-                                "%s: calculator %r, direct neutron_sld %r at %r A (weights %r, density %r)"
-                                % (o, x, y, lams[i], w, rho), case)
-            if o != "sld_re" and not x >= 0:
-                raise Violation("c17:negative:%s" % o, "%s = %r" % (o, x), case)
-    # the calculator is reusable: a second call with other weights does not see the first
-    w2 = [x * 2.0 + 1.0 for x in w]
-    got2 = calc(np.array(w2, dtype=float), density=rho)
-    got1 = calc(weights, density=rho)
-    for o, a, b in zip(SLD, got, got1):
-        if not bool(np.all(np.asarray(a) == np.asarray(b))):
-            raise Violation("c17:stateful", "%s changed between two identical calls: %r then %r" % (o, a, b), case)
+    # the same calculator and the SAME weights array, modified in place between the calls
+    rho_k = rho
+    for n, step in enumerate(steps):
+        rho_k = apply_step(np, weights, rho_k, step)
+        with unchanged("c17", case, wavelength=arg, weights=weights):
+            got_k = calc(weights, density=rho_k)
+        judge("call %d (after %r on the same weights array)" % (n + 2, step), mats, comps, got_k, weights, rho_k,
+              arg, shape, lams, case)
+
+    # a fresh array with the first weights gives the first answer again
+    if not zero:
+        got1 = calc(np.array(w, dtype=weights.dtype), density=rho)
+        for o, a, b in zip(SLD, got, got1):
+            if not bool(np.all(np.asarray(a) == np.asarray(b))):
+                raise Violation("c17:stateful", "%s differs between the first call and a later call with equal "
+                                "weights and density: %r then %r" % (o, a, b), case)
 
 
 def strat():
@@ -131,6 +192,11 @@ def strat():
                              st.lists(lam, min_size=2, max_size=4))).map(lambda t: {"form": t[0], "lams": t[1]})
     idx = st.integers(0, 11)
     rho = ng.density_value()
+    wval = st.one_of(st.integers(1, 12), st.floats(-3, 3).map(lambda x: float("%.6g" % 10 ** x)))
+    step = st.one_of(st.tuples(st.just("set"), st.integers(0, 5), wval), st.tuples(st.just("set"), st.integers(0, 5), wval),
+                     st.tuples(st.just("scale"), st.sampled_from([0.5, 2.0, 3.0, 0.125, 10.0])),
+                     st.tuples(st.just("zero-one"), st.integers(0, 5)), st.tuples(st.just("zero")),
+                     st.tuples(st.just("density"), rho), st.tuples(st.just("same"))).map(list)
     return st.fixed_dictionaries({
         "compounds": st.lists(small, min_size=1, max_size=4),
         "materials": st.one_of(st.lists(idx, min_size=1, max_size=6), st.lists(idx, min_size=2, max_size=6),
@@ -140,6 +206,7 @@ def strat():
         "intw": st.booleans(),
         "density": st.one_of(rho, rho, rho, rho, rho, rho, rho, rho, rho, rho, st.sampled_from([0, 0.0])),
         "wl": wl,
+        "steps": st.lists(step, min_size=1, max_size=3),
     })
 
 
